@@ -24,6 +24,18 @@ pub enum Body {
     RootDefer { bound: i64, mul: i64, lazy: bool },
     /// nested loop with a defer_tick / defer_tick_lazy cycle (delays by one iteration)
     Nested { bound: i64, mul: i64, lazy: bool, all_iter: bool, lazy_into_nested: bool, inner_sink: bool },
+    /// nested loop with 2-3 independent defer cycles: cycle k takes the items with
+    /// `x.rem_euclid(3) == res` below its bound and multiplies them (mul = 1 mod 3 keeps the class);
+    /// `order` = textual declaration order of the cycles
+    NestedMulti { cycles: Vec<Cyc>, order: Vec<usize>, all_iter: bool, inner_sink: bool },
+}
+
+#[derive(Clone, Debug, PartialEq, Eq, Hash, Serialize, Deserialize)]
+pub struct Cyc {
+    pub res: i64,
+    pub bound: i64,
+    pub mul: i64,
+    pub lazy: bool,
 }
 
 #[derive(Clone, Debug, PartialEq, Eq, Hash, Serialize, Deserialize)]
@@ -139,6 +151,46 @@ impl LoopCase {
                     s.push_str(&format!("    output = all_iterations() -> {};\n", sink(SINK_ALL)));
                 }
             }
+            Body::NestedMulti { cycles, order, all_iter, inner_sink } => {
+                if self.n_trig == 1 {
+                    s.push_str("    src0 -> batch() -> root_data;\n    root_data = identity::<i64>();\n");
+                } else {
+                    for k in 0..self.n_trig {
+                        s.push_str(&format!("    src{k} -> batch() -> root_data;\n"));
+                    }
+                    s.push_str("    root_data = union() -> identity::<i64>();\n");
+                }
+                if let Some(l) = self.lazy_src() {
+                    s.push_str(&format!("    src{l} -> batch_lazy() -> {};\n", sink(SINK_LAZY_ROOT)));
+                }
+                s.push_str("    loop {\n        merged = union() -> tee();\n        root_data -> batch() -> merged;\n");
+                for &k in order {
+                    s.push_str(&format!("        deferred{k} -> merged;\n"));
+                }
+                if *inner_sink {
+                    s.push_str(&format!("        merged -> {};\n", sink(SINK_MAIN)));
+                }
+                for &k in order {
+                    let c = &cycles[k];
+                    s.push_str(&format!(
+                        "        merged -> filter(|x: &i64| x.rem_euclid(3) == {}i64 && *x < {}i64) -> map(|x: i64| x * {}i64) -> {}() -> deferred{k};\n",
+                        c.res,
+                        c.bound,
+                        c.mul,
+                        if c.lazy { "defer_tick_lazy" } else { "defer_tick" }
+                    ));
+                }
+                for &k in order {
+                    s.push_str(&format!("        deferred{k} = identity::<i64>();\n"));
+                }
+                if *all_iter {
+                    s.push_str("        merged -> output;\n");
+                }
+                s.push_str("    };\n");
+                if *all_iter {
+                    s.push_str(&format!("    output = all_iterations() -> {};\n", sink(SINK_ALL)));
+                }
+            }
         }
         s.push_str("};\n");
         if let Some(k) = self.sibling_src() {
@@ -185,6 +237,7 @@ pub struct Model {
 pub fn model(c: &LoopCase, script: &[Vec<Vec<i64>>]) -> Model {
     let mut chunks: Chunks = BTreeMap::new();
     let mut deferred: Vec<i64> = vec![]; // data waiting behind defer_tick / defer_tick_lazy
+    let mut multi: Vec<Vec<i64>> = vec![vec![]; 3]; // per cycle, for NestedMulti
     let mut max_iterations = 0;
     let mut lazy_only_ticks = 0;
     for (t, tick_in) in script.iter().enumerate() {
@@ -262,6 +315,45 @@ pub fn model(c: &LoopCase, script: &[Vec<Vec<i64>>]) -> Model {
                     chunks.entry((t, SINK_ALL)).or_default().push(all_acc);
                 }
             }
+            Body::NestedMulti { cycles, all_iter, inner_sink, .. } => {
+                if trig.is_empty() {
+                    continue;
+                }
+                if c.lazy_entry && !lazyv.is_empty() {
+                    chunks.entry((t, SINK_LAZY_ROOT)).or_default().push(lazyv.clone());
+                }
+                let mut all_acc = vec![];
+                let mut entry = trig.clone();
+                let mut iterations = 0;
+                let mut first = true;
+                loop {
+                    // re-runs while ANY non-lazily loop-deferred buffer is non-empty
+                    let fire = first || cycles.iter().enumerate().any(|(k, cy)| !cy.lazy && !multi[k].is_empty());
+                    if !fire {
+                        break;
+                    }
+                    iterations += 1;
+                    let mut m = if first { std::mem::take(&mut entry) } else { vec![] };
+                    first = false;
+                    for k in 0..cycles.len() {
+                        m.extend(multi[k].drain(..));
+                    }
+                    for (k, cy) in cycles.iter().enumerate() {
+                        multi[k] = m.iter().filter(|x| x.rem_euclid(3) == cy.res && **x < cy.bound).map(|x| x * cy.mul).collect();
+                    }
+                    if *inner_sink {
+                        chunks.entry((t, SINK_MAIN)).or_default().push(m.clone());
+                    }
+                    all_acc.extend(m);
+                    if iterations > 64 {
+                        break;
+                    }
+                }
+                max_iterations = max_iterations.max(iterations);
+                if *all_iter && !all_acc.is_empty() {
+                    chunks.entry((t, SINK_ALL)).or_default().push(all_acc);
+                }
+            }
         }
     }
     Model { chunks, max_iterations, lazy_only_ticks }
@@ -305,9 +397,32 @@ fn check_chunks(exp: &Chunks, log: &[(u64, usize, serde_json::Value)]) -> Option
 pub fn gen_case(r: &mut Rng, hint: usize) -> LoopCase {
     let bound = *r.pick(&[6, 20, 50, 100]);
     let mul = *r.pick(&[2, 3, 10]);
-    let body = match hint % 6 {
+    let body = match hint % 9 {
+        6..=8 => {
+            // 2-3 independent cycles with different life times; at most one lazy (never all)
+            let n = 2 + r.below(2);
+            let mut res: Vec<i64> = vec![0, 1, 2];
+            for i in (1..3).rev() {
+                res.swap(i, r.below(i + 1));
+            }
+            let lazy_at = if hint % 9 == 8 { Some(r.below(n)) } else { None };
+            let cycles: Vec<Cyc> = (0..n)
+                .map(|k| Cyc {
+                    res: res[k],
+                    bound: *r.pick(&[5, 30, 200, 1500]),
+                    mul: *r.pick(&[4, 7, 10]),
+                    lazy: lazy_at == Some(k),
+                })
+                .collect();
+            let mut order: Vec<usize> = (0..n).collect();
+            for i in (1..n).rev() {
+                order.swap(i, r.below(i + 1));
+            }
+            let all_iter = r.chance(1, 3);
+            Body::NestedMulti { cycles, order, all_iter, inner_sink: !all_iter || r.chance(2, 3) }
+        }
         0 => Body::Flat,
-        1 | 2 => Body::RootDefer { bound, mul, lazy: hint % 6 == 2 },
+        1 | 2 => Body::RootDefer { bound, mul, lazy: hint % 9 == 2 },
         _ => {
             let all_iter = r.chance(1, 2);
             Body::Nested {
@@ -338,7 +453,7 @@ pub fn gen_case(r: &mut Rng, hint: usize) -> LoopCase {
             for k in 0..c.n_sources() {
                 let is_lazy = Some(k) == c.lazy_src();
                 let n = if r.chance(2, 5) && !is_lazy { 0 } else { r.below(4) };
-                per.push((0..n).map(|_| r.range(1, 5)).collect::<Vec<i64>>());
+                per.push((0..n).map(|_| r.range(1, 6)).collect::<Vec<i64>>());
             }
             script.push(per);
         }
@@ -358,6 +473,12 @@ fn kind(c: &LoopCase) -> String {
         Body::Nested { lazy, all_iter, .. } => format!(
             "nested{}{}",
             if *lazy { "-lazy" } else { "" },
+            if *all_iter { "+all_iterations" } else { "" }
+        ),
+        Body::NestedMulti { cycles, all_iter, .. } => format!(
+            "nested-{}-cycles{}{}",
+            cycles.len(),
+            if cycles.iter().any(|c| c.lazy) { "-one-lazy" } else { "" },
             if *all_iter { "+all_iterations" } else { "" }
         ),
     }
@@ -410,7 +531,8 @@ fn describe(c: &LoopCase, si: usize, d: &str) -> String {
 pub fn run(ctx: &mut Ctx) {
     ctx.rule = "Cases are (loop skeleton, per-tick inputs): root-level loops with 1-2 batch() entries and an optional \
 batch_lazy() entry (flat body; body with a union/tee/filter/map/defer_tick or defer_tick_lazy cycle), nested loops with such \
-a cycle (bounding filter x < B, multiplier m), optional batch_lazy() entry into the nested loop, optional all_iterations() \
+a cycle (bounding filter x < B, multiplier m) or with 2-3 independent cycles of different life times in random \
+declaration order (optionally one of them lazy), optional batch_lazy() entry into the nested loop, optional all_iterations() \
 egress, an optional independent sibling root loop, sources declared before or after the loop text; inputs over 1-5 ticks \
 with empty ticks and lazy-only ticks. Oracle: loop model (root loop at most once per tick, iff a non-lazy entry or \
 non-lazily tick-deferred data is non-empty; nested loop iterates while its non-lazy entry or non-lazily deferred data is \
